@@ -64,4 +64,13 @@ theorem items_after_history (isNone : V → Bool) (cap : Nat) (hcap : 4 ≤ cap)
   obtain ⟨s0, s', h0, h1, h2, h3⟩ := C07.refines_dict (K := K) (V := V) isNone cap hcap ops
   exact ⟨s0, s', h0, h1, by rw [items_spec s' h2, h3]⟩
 
+/-- non-vacuity: a concrete history (leaf split, a deletion) and a range whose start is an absent key and whose end is a present one -/
+example : ∃ s0 s' : PState Int Nat, (new 4 : Option (PState Int Nat)) = some s0 ∧
+    (∃ outs, C07.run (fun _ => false) s0 [.set 1 10, .set 2 20, .set 3 30, .set 4 40, .set 5 50, .set 6 60, .del 3] = .ok (s', outs)) ∧
+    items s' (some 3) (some 6) = .ok [(4, 40), (5, 50)] := by
+  obtain ⟨s0, s', h0, h1, h2⟩ := items_after_history (K := Int) (V := Nat) (fun _ => false) 4 (by omega)
+    [.set 1 10, .set 2 20, .set 3 30, .set 4 40, .set 5 50, .set 6 60, .del 3] (some 3) (some 6)
+  refine ⟨s0, s', h0, ⟨_, h1⟩, ?_⟩
+  rw [h2]; decide
+
 end BPT.Props.C08
